@@ -986,6 +986,7 @@ func driveAggKernel(r *rand.Rand, w *bufio.Writer, id int, cv *coverOut) {
 func driveKernel(r *rand.Rand, w *bufio.Writer, id int, cv *coverOut) {
 	var u *Universe
 	var ga, gb []int
+	nearMiss := false
 	for {
 		key := pick(r, []uint64{0, 1, 9, 0x7FFF, 0xFFFE, 0xFFFF})
 		a, b := edgeShape(r, key), edgeShape(r, key)
@@ -994,6 +995,14 @@ func driveKernel(r *rand.Rand, w *bufio.Writer, id int, cv *coverOut) {
 		}
 		if r.Intn(10) == 0 {
 			a, b = fragmentingPair(r, key)
+		}
+		nearMiss = r.Intn(6) == 0
+		if nearMiss { // B = A with ONE value at a run edge exchanged for a value outside A: same cardinality, different set
+			if nb, ok := swapOneValue(r, a, key); ok {
+				b = nb
+			} else {
+				nearMiss = false
+			}
 		}
 		if r.Intn(3) == 0 && key < 0xFFFF {
 			a = a.union(edgeShape(r, key+1))
@@ -1018,8 +1027,15 @@ func driveKernel(r *rand.Rand, w *bufio.Writer, id int, cv *coverOut) {
 	e := newExec(u, w, id, r.Int63())
 	e.begin()
 	rc := []string{"R", "Ro", "M", "Mo", "Rc", "Rok", "Rz", "Rof", "Mz", "Rou"}
-	e.run(Call{Op: "Build", Dst: 1, As: ga, Rcp: pick(r, rc)})
-	e.run(Call{Op: "Build", Dst: 2, As: gb, Rcp: pick(r, rc)})
+	ra, rb := pick(r, rc), pick(r, rc)
+	if nearMiss { // the two operands in different storage forms (run-optimised vs value by value), either way round
+		ra, rb = pick(r, []string{"Ro", "R", "Rok"}), pick(r, []string{"M", "A", "Mc"})
+		if r.Intn(2) == 0 {
+			ra, rb = rb, ra
+		}
+	}
+	e.run(Call{Op: "Build", Dst: 1, As: ga, Rcp: ra})
+	e.run(Call{Op: "Build", Dst: 2, As: gb, Rcp: rb})
 	ops := []string{"And", "Or", "Xor", "AndNot"}
 	r.Shuffle(len(ops), func(i, j int) { ops[i], ops[j] = ops[j], ops[i] })
 	for _, op := range ops {
